@@ -9,6 +9,7 @@ still reported as a VIOLATION.  `fixed` entries suppress nothing.
 """
 import json
 import os
+import re
 
 from . import kani as K
 
@@ -38,6 +39,8 @@ def match(known, prop, r):
             continue
         wit = r.get("witness") or ""
         if not all(x in wit for x in kf.get("witness_contains", [])):
+            continue
+        if kf.get("witness_regex") and not re.search(kf["witness_regex"], wit):
             continue
         if all(any(a in d for a in kf.get("assertions", [])) for d in failed):
             return kf
